@@ -16,7 +16,7 @@ ASSUMPTIONS = ["reference 'matches the pattern' = ref.pattern recogniser; order 
                "hg tag listing is not exercised (no hg binary; FakeRepo hg personality is only used by C10)"]
 COMPONENTS = {"bumpver cli show/update, vcs.get_tags": "real", "git": "FakeRepo model (TAGS) and real git 2.39 (TAGSREAL)",
               "clock": "simulated"}
-CAMPAIGNS = [Tags("C09", quick=9000, thorough=400000), Tags("C09", quick=160, thorough=5000, real=True)]
+CAMPAIGNS = [Tags("C09", quick=15000, thorough=400000), Tags("C09", quick=160, thorough=5000, real=True)]
 
 
 def sanity_gate(tier, total):
